@@ -62,16 +62,16 @@ def schemes():
     return out
 
 
-def holstein(nmol=2, nph=1, scheme=2, nlev=3):
+def holstein(nmol=2, nph=1, scheme=2, nlev=3, variant=0):
     from renormalizer.model import HolsteinModel, Mol, Phonon
     from renormalizer.utils import Quantity
     oms = [0.7, 1.1][:nph]
-    ds = [0.9, -0.5][:nph]
+    ds = [0.9, -0.5][:nph] if variant == 0 else [0.4, 0.8][:nph]
     mols = []
     for i in range(nmol):
         phs = [Phonon.simple_phonon(Quantity(oms[k]), Quantity(ds[k]), nlev) for k in range(nph)]
-        mols.append(Mol(Quantity(0.3 + 0.2 * i), phs))
-    return HolsteinModel(mols, Quantity(0.4), scheme=scheme)
+        mols.append(Mol(Quantity(0.3 + 0.2 * i if variant == 0 else 1.1 - 0.7 * i), phs))
+    return HolsteinModel(mols, Quantity(0.4 if variant == 0 else 0.15), scheme=scheme)
 
 
 def cases(tier, seed):
@@ -87,6 +87,11 @@ def cases(tier, seed):
                 if tier == "quick" and beta == 10.0 and sname in ("vmf", "mu-vmf", "cmf-midpoint:RK45") and space == "EX":
                     continue      # a minute each (stiff regularised equations at low temperature): thorough tier only
                 yield {"k": "thermalprop", "space": space, "scheme": sname, "beta": beta}
+        # the Hamiltonian to thermalise with is handed over separately (h_mpo_model) and differs from the model the initial
+        # maximally entangled state was built for (same basis, other site energies / hopping)
+        for sname in ("pc-taylor", "ps:krylov", "ps2:krylov"):
+            yield {"k": "thermalprop", "space": space, "scheme": sname, "beta": 1.0, "other_model": True}
+        yield {"k": "thermalprop-exact", "space": space, "beta": 1.0, "other_model": True}
         for beta in (0.1, 1.0, 10.0):
             yield {"k": "thermalprop-exact", "space": space, "beta": beta}
         for init in ("excited-vacuum", "random"):
@@ -240,9 +245,10 @@ def run_thermalprop(desc, seed, exact=False):
     from checks.c09_evolve import make_config, classify_exception
     from mc.budget import rhs_budget, BudgetExceeded
     model = holstein(2, 1, 2, 3)
+    init_model = holstein(2, 1, 2, 3, variant=1) if desc.get("other_model") else model
     space, beta = desc["space"], desc["beta"]
     viol = {}
-    tag = f"[thermal {space} beta={beta} {'exact' if exact else desc['scheme']}]"
+    tag = f"[thermal {space} beta={beta} {'exact' if exact else desc['scheme']}{' h_mpo_model given' if desc.get('other_model') else ''}]"
     Hd, eops, pops = holstein_dense_ops(model)
     sig = [np.asarray(b.sigmaqn) for b in model.basis]
     mask = sector_projector(sig, [0 if space == "GS" else 1])
@@ -266,13 +272,14 @@ def run_thermalprop(desc, seed, exact=False):
     else:
         Href = Hd
     try:
-        init = MpDm.max_entangled_gs(model) if space == "GS" else MpDm.max_entangled_ex(model)
+        init = MpDm.max_entangled_gs(init_model) if space == "GS" else MpDm.max_entangled_ex(init_model)
         init.compress_config = CompressConfig(CompressCriteria.fixed, max_bonddim=32)
         cfg = None if exact else make_config(schemes()[desc["scheme"]][0])
         with rhs_budget(400000):
             # zero-exciton space: the maximally entangled state is a product state and H has no coupling there; the automatic bond
             # expansion of ThermalProp only supports the one-exciton space (explicit assert), so it is switched off for GS
-            tp = ThermalProp(init, exact=exact, space=space, evolve_config=cfg, auto_expand=(space == "EX"))
+            tp = ThermalProp(init, h_mpo_model=(model if desc.get("other_model") else None), exact=exact, space=space, evolve_config=cfg,
+                             auto_expand=(space == "EX"))
             tp.evolve(nsteps=nsteps, evolve_time=beta / 2j)
     except BudgetExceeded:
         return {"skipped": 1, "outcome": "stiff"}
